@@ -298,9 +298,12 @@ def jobs(tier):
         return [Job('programs', 'hyp', lambda: W.program(), n=4000),
                 Job('long_arrays', 'hyp', lambda: W.big_program(), n=160,
                     note='array lengths on and next to powers of two between 512 and 196608 values'),
+                Job('wide_programs', 'hyp', lambda: W.wide_program(), n=32,
+                    note='100-320 channel objects per call, objects with up to 300 properties'),
                 Job('many_segments', 'hyp', lambda: W.many_segment_program(), n=320,
                     note='100-140 write_segment calls; two channels whose per-call lengths first differ after call 97')]
     return [Job('programs', 'hyp', lambda: W.program(), n=120000),
             Job('long_programs', 'hyp', lambda: W.program(max_sessions=3, max_calls=5, max_objs=6, max_len=40), n=20000),
             Job('long_arrays', 'hyp', lambda: W.big_program(), n=4000),
+            Job('wide_programs', 'hyp', lambda: W.wide_program(), n=800),
             Job('many_segments', 'hyp', lambda: W.many_segment_program(), n=2500)]
